@@ -109,8 +109,10 @@ func evalC14Dur(f []string) Result {
 	d := timeutil.Duration(dv)
 	str := d.String()
 	text, merr := d.MarshalText()
-	var d2 timeutil.Duration
-	uerr := d2.UnmarshalText(text)
+	d2 := timeutil.Duration(12345) // a receiver that held another value before
+	buf := bytes.Clone(text)
+	uerr := d2.UnmarshalText(buf)
+	scrambleC14(buf)
 	rt := "err"
 	if uerr == nil {
 		rt = fmt.Sprintf("ok:%d", int64(d2))
@@ -191,8 +193,10 @@ func evalC14HP(f []string) Result {
 	direct := "ok"
 	brackets := strings.ContainsAny(host, "[]")
 	text, merr := hp.MarshalText()
-	var hp2 netutil.HostPort
-	uerr := hp2.UnmarshalText(text)
+	hp2 := netutil.HostPort{Host: "earlier.example", Port: 1} // a receiver that held another value before
+	buf := bytes.Clone(text)
+	uerr := hp2.UnmarshalText(buf)
+	scrambleC14(buf) // the buffer is the caller's and is reused
 	if !brackets {
 		switch {
 		case err != nil || *got != hp:
@@ -421,6 +425,17 @@ func showURLC14(u *urlutil.URL, err error) string {
 	return "ok:" + hx([]byte(u.String()))
 }
 
+// scrambleC14 overwrites a buffer the code under test was given and must not keep.
+func scrambleC14(b []byte) {
+	for i := range b {
+		b[i] = 'X'
+	}
+}
+
+func earlierURLC14() *url.URL {
+	return &url.URL{Scheme: "earlier", User: url.UserPassword("earlier-user", "earlier-pass"), Host: "earlier.example:1", Path: "/earlier", RawQuery: "earlier=1", Fragment: "earlier"}
+}
+
 func evalC14URL(f []string) Result {
 	raw := string(unhx(f[1]))
 	u, err := urlutil.Parse(raw)
@@ -429,13 +444,18 @@ func evalC14URL(f []string) Result {
 	}
 	s := u.String()
 	text, merr := u.MarshalText()
-	u2 := &urlutil.URL{}
-	e2 := u2.UnmarshalText(text)
+	// receivers that held another URL (every field set) before; buffers that the caller reuses
+	u2 := &urlutil.URL{URL: *earlierURLC14()}
+	buf := bytes.Clone(text)
+	e2 := u2.UnmarshalText(buf)
+	scrambleC14(buf)
 	tok, jerr := json.Marshal(u)
-	u3 := &urlutil.URL{}
+	u3 := &urlutil.URL{URL: *earlierURLC14()}
 	var e3 error
 	if jerr == nil {
-		e3 = json.Unmarshal(tok, u3)
+		jbuf := bytes.Clone(tok)
+		e3 = json.Unmarshal(jbuf, u3)
+		scrambleC14(jbuf)
 	} else {
 		e3 = jerr
 	}
